@@ -32,12 +32,24 @@ B64Claims(e) ==
      <<"port-enc-means-x", B64Dec(e.encp) = e.x>>,
      <<"port-dec-spec-enc", e.decp = e.x>>,
      <<"string-enc-allowed", B64Allowed(e.encs)>>,
-     <<"string-enc-means-utf8", B64Dec(e.encs) = Utf8Enc(e.x)>> >>
+     <<"string-enc-means-utf8", B64Dec(e.encs) = Utf8Enc(e.x)>>,
+     <<"file-port-enc", B64Allowed(e.encf) /\ B64Dec(e.encf) = e.x>>,
+     <<"text-port-enc", e.enct = e.encs>> >>
+\* a base64 text (wrapped, with ignorable characters, padded or not) through every decoding interface:
+\* each must return what the text means, however the implementation chunks it
+B64TextClaims(e) ==
+  << <<"gen:t", B64LaxDomain(e.t) /\ B64DecLax(e.t) = e.x>>,
+     <<"dec-bytevector", e.dbv = e.x>>,
+     <<"dec-string", e.dstr = e.x>>,
+     <<"dec-binary-port", e.dbp = e.x>>,
+     <<"dec-file-port", e.dfp = e.x>>,
+     <<"dec-text-port", e.dtp = e.x>> >>
 QpClaims(e) ==
   << <<"enc-chars", QpCharsOk(e.enc)>>,
      <<"enc-lines", QpLinesOk(e.enc)>>,
      <<"enc-means-x", QpDec(e.enc) = e.x>>,
      <<"dec-enc", e.dec = e.x>> >>
+QpPortClaims(e) == QpClaims(e) \o << <<"port-enc", e.encp = e.enc>>, <<"port-dec-enc", e.decp = e.x>> >>
 UriClaims(e) ==
   LET plus == e.plus = 1
       bytes == \A i \in 1..Len(e.x) : e.x[i] <= 255 IN
@@ -140,7 +152,7 @@ CsvClaims(e) ==
 HostileClaims(e) == << <<"outcome-class", e.oc \in {"val", "err"}>> >>
 
 Claims(e) ==
-  CASE e.kind = "b64" -> B64Claims(e) [] e.kind = "qp" -> QpClaims(e) [] e.kind = "uri" -> UriClaims(e)
+  CASE e.kind = "b64" -> B64Claims(e) [] e.kind = "b64t" -> B64TextClaims(e) [] e.kind = "qp" -> QpClaims(e) [] e.kind = "qpp" -> QpPortClaims(e) [] e.kind = "uri" -> UriClaims(e)
     [] e.kind = "utf" -> UtfClaims(e) [] e.kind = "acc" -> AccClaims(e) [] e.kind = "uv" -> UvClaims(e)
     [] e.kind = "int" -> IntClaims(e) [] e.kind = "hex" -> HexClaims(e)
     [] e.kind = "json" -> JsonClaims(e) [] e.kind = "csv" -> CsvClaims(e) [] e.kind = "h" -> HostileClaims(e)
